@@ -50,6 +50,10 @@ func (d *Delete) Unmarshal(b []byte) error {
 		if len(b) < (4 + (int(spiSize) * int(numberOfSPI))) {
 			return errors.Errorf("Delete: No Sufficient bytes to get SPIs according to the length specified in header")
 		}
+		// the SPIs are kept as uint32: only 4-octet SPIs (AH/ESP) can be represented
+		if numberOfSPI > 0 && spiSize != 4 {
+			return errors.Errorf("Delete: Unsupported SPI size %d", spiSize)
+		}
 
 		d.ProtocolID = b[0]
 		d.SPISize = spiSize
@@ -57,7 +61,7 @@ func (d *Delete) Unmarshal(b []byte) error {
 
 		b = b[4:]
 		var spi uint32
-		for i := 0; i+4 <= len(b); i += 4 {
+		for i := 0; i < 4*int(numberOfSPI); i += 4 {
 			spi = binary.BigEndian.Uint32(b[i : i+4])
 			d.SPIs = append(d.SPIs, spi)
 		}
